@@ -9,7 +9,7 @@ patch -p1 -s < /verif/seeded/$NAME/patch.diff || { echo "$NAME: patch does not a
 for c in ${CHECKS//,/ }; do
   # one run per check at a time: concurrent runs of one check share its loopback address block
   exec 9>/tmp/verif-seedcheck-$c.lock; flock 9
-  o=$(VERIF_EVIDENCE_DIR=/tmp/verif-mut-evidence VERIF_REPLAY_DIR=/tmp/verif-mut-replay VERIF_REPO="$W" /verif/check "$c" $TIER 2>&1 | grep '^VIOLATION\|^OK\|^INCONCLUSIVE\|^KNOWN' | head -2 | cut -c1-260)
+  o=$(VERIF_EVIDENCE_DIR=/tmp/verif-mut-evidence VERIF_REPLAY_DIR=/tmp/verif-mut-replay VERIF_REPO="$W" /verif/check "$c" $TIER 2>&1 | grep '^VIOLATION\|^OK\|^INCONCLUSIVE' | head -2 | cut -c1-260)
   flock -u 9
   echo "$NAME $c: $o"
   [ "$TIER" = quick ] && echo "RECHECK $c: $(echo "$o" | head -1)" >> /verif/seeded/$NAME/eval.log
